@@ -156,7 +156,7 @@ func init() {
 		var us []*interp.Unit
 		for _, sp := range specs {
 			for _, pr := range profs {
-				ps := map[string]interface{}{"spec": sp, "envmask": 15}
+				ps := map[string]interface{}{"spec": sp, "envmask": 15, "defEqEnv": 0}
 				for k, v := range pr.params {
 					ps[k] = v
 				}
@@ -193,7 +193,8 @@ func init() {
 			return []*interp.Unit{
 				unit(lex, "H_lex_ref", fmt.Sprintf("H_lex_ref[Ls<=%d]", ls), map[string]interface{}{"Ls": ls}),
 				unit(par, "H_parse_ref", fmt.Sprintf("H_parse_ref[k<=%d]", k), map[string]interface{}{"k": k}),
-				unit(cli, "H_doinit_total", fmt.Sprintf("H_run_panics[Ls<=%d]", ld), map[string]interface{}{"Ls": ld}),
+				unit(cli, "H_doinit_total", fmt.Sprintf("H_run_panics[Ls<=%d]", ld), map[string]interface{}{"Ls": ld, "sub": 0}),
+				unit(cli, "H_doinit_total", fmt.Sprintf("H_run_panics[spec of a sub-command, 3 policies, Ls<=%d]", ld-1), map[string]interface{}{"Ls": ld - 1, "sub": 1}),
 			}
 		},
 		Bounds: func(c *checkCtx) map[string]interface{} {
@@ -210,7 +211,7 @@ func init() {
 			ls, ld := pick(c, 4, 5), pick(c, 4, 5)
 			us := []*interp.Unit{
 				unit(lex, "H_lex_total", fmt.Sprintf("H_lex_total[Ls<=%d]", ls), map[string]interface{}{"Ls": ls}),
-				unit(cli, "H_doinit_total", fmt.Sprintf("H_doinit_total[Ls<=%d]", ld), map[string]interface{}{"Ls": ld}),
+				unit(cli, "H_doinit_total", fmt.Sprintf("H_doinit_total[Ls<=%d]", ld), map[string]interface{}{"Ls": ld, "sub": 0}),
 			}
 			specs := append(evalList(c, "vFamilyEnv"), evalList(c, "vFamilyEnvEnd")...)
 			cur := append(evalList(c, "vFamilyCurated"), evalList(c, "vFamilyEnd")...)
@@ -260,7 +261,7 @@ func init() {
 		ID: "C10", Level: "model_checking",
 		Units: func(c *checkCtx) []*interp.Unit {
 			all := withOption(endFree(append(evalList(c, "vFamilyCurated"), evalList(c, "vFamilyGenerated")...)))
-			core := []string{"[-o] [-e]", "-o -e", "[-a] [-o]", "[-a] [-o] [X]", "-a... [-b]", "-a... -b", "[OPTIONS]", "[--aa] [--oo] [--ee]"}
+			core := []string{"[-o] [-e]", "-o -e", "[-a] [-o]", "[-a] [-o] [X]", "-a... [-b]", "-a... -b", "[OPTIONS]", "[--aa] [--oo] [--ee]", "-a -o", "-a -o X", "[-ab] [-o] X"}
 			if c.quick() {
 				us := specUnits("H_respell", append(core, everyNth(all, 64, c.seed)...), []profile{{"n<=2 Lp<=1", map[string]interface{}{"n": 2, "Lp": 1, "flagsOnly": 0}}}, 1)
 				return append(us, specUnits("H_respell", []string{"-a... [-b]", "-a... -b", "(-a | -b)...", "[-ab]..."}, []profile{{"flags only n<=4", map[string]interface{}{"n": 4, "Lp": 1, "flagsOnly": 1}}}, 1)...)
@@ -306,6 +307,8 @@ func init() {
 			core := []string{"-e X", "[OPTIONS]", "[OPTIONS] X", "-e...", "[-e...] X", "(-e | -a)... X", "-ae", "-e -- X"}
 			if c.quick() {
 				us := specUnits("H_envmono", append(core, append(everyNth(specs, 6, c.seed), everyNth(cur, 40, c.seed)...)...), []profile{{"tmpl K<=2 Lp<=1, env subsets of {VA,VE}", map[string]interface{}{"profile": "tmpl", "K": 2, "Lp": 1, "envmask": 9}}}, 1)
+				us = append(us, specUnits("H_envmono", []string{"-e X", "-a -e", "[OPTIONS] X [OPTIONS]", "-o [-a]"}, []profile{{"raw K<=2 L<=2, declared defaults equal to the environment values", map[string]interface{}{"profile": "raw", "K": 2, "L": 2, "envmask": 15, "defEqEnv": 1}}}, 1)...)
+				us = append(us, specUnits("H_envmono", []string{"[OPTIONS] X [OPTIONS]", "[-ae] X [-ae]"}, []profile{{"core template K<=3 Lp<=1, env subsets of {VA,VE}", map[string]interface{}{"profile": "tmplmini", "K": 3, "Lp": 1, "envmask": 9}}}, 1)...)
 				return append(us, specUnits("H_envmono", []string{"[OPTIONS]", "[OPTIONS] X", "-ae"}, []profile{{"tmpl K<=2 Lp<=1, all 16 env subsets", map[string]interface{}{"profile": "tmpl", "K": 2, "Lp": 1, "envmask": 15}}}, 1)...)
 			}
 			specs = append(specs, cur...)
@@ -330,6 +333,7 @@ func init() {
 		return us
 	}
 	allTrees := []int{0, 1, 2, 3, 4, 5}
+	helpTrees := []int{1, 3, 4, 5, 6}
 	precUnits := func(c *checkCtx, check string) []*interp.Unit {
 		var us []*interp.Unit
 		for t := 0; t < 7; t++ {
@@ -344,9 +348,15 @@ func init() {
 				role := map[int]string{1: "opt", 0: "arg"}[opt]
 				tn := []string{"bool", "string", "int", "float64", "strings", "ints", "floats64"}[t]
 				u := unit(cli, "H_prec", fmt.Sprintf("H_prec[%s %s env<=%dB x%d cli<=%dB]", tn, role, envLen, maxEnv, cliLen),
-					map[string]interface{}{"type": t, "opt": opt, "check": check, "envLen": envLen, "cliLen": cliLen, "maxEnv": maxEnv})
+					map[string]interface{}{"type": t, "opt": opt, "check": check, "envLen": envLen, "cliLen": cliLen, "maxEnv": maxEnv, "withArg": 0})
 				u.Samples = 4
 				us = append(us, u)
+				if opt == 1 && (t == 2 || t == 5 || t == 0) {
+					u2 := unit(cli, "H_prec", fmt.Sprintf("H_prec[%s opt + positional, cli<=%dB]", tn, cliLen),
+						map[string]interface{}{"type": t, "opt": opt, "check": check, "envLen": 1, "cliLen": cliLen, "maxEnv": 0, "withArg": 1})
+					u2.Samples = 2
+					us = append(us, u2)
+				}
 			}
 		}
 		return us
@@ -388,9 +398,9 @@ func init() {
 		ID: "C14", Level: "model_checking",
 		Units: func(c *checkCtx) []*interp.Unit {
 			if c.quick() {
-				return treeUnits("H_help", []int{1, 3, 4, 5}, 3, 1, 4)
+				return treeUnits("H_help", helpTrees, 3, 1, 4)
 			}
-			return append(treeUnits("H_help", allTrees, 4, 1, 4), treeUnits("H_help", []int{1, 5}, 3, 2, 4)...)
+			return append(treeUnits("H_help", append(allTrees, 6), 4, 1, 4), treeUnits("H_help", []int{1, 5, 6}, 3, 2, 4)...)
 		},
 		Bounds: func(c *checkCtx) map[string]interface{} {
 			return map[string]interface{}{"argv": map[bool]string{true: "K<=3", false: "K<=4 (and K<=3 with 2-byte raw tokens)"}[c.quick()] + " tokens from {-h, --help, --, -v, --version, -f, every alias of the tree, raw bytes}", "policies": "all three (case split)"}
@@ -420,7 +430,12 @@ func init() {
 	})
 	reg(&propDef{ID: "C06", Level: "model_checking", Units: func(c *checkCtx) []*interp.Unit { return precUnits(c, "C06") }, Bounds: precBounds, Assumptions: precAssume,
 		Outside: []string{"longer environment values / more variables", "custom types (C19)"}})
-	reg(&propDef{ID: "C15", Level: "model_checking", Units: func(c *checkCtx) []*interp.Unit { return precUnits(c, "C15") }, Bounds: precBounds, Assumptions: precAssume,
+	reg(&propDef{ID: "C15", Level: "model_checking", Units: func(c *checkCtx) []*interp.Unit {
+		us := precUnits(c, "C15")
+		// several parameters at once: the SetByUser flags with environment values set equal those without
+		return append(us, specUnits("H_envmono", []string{"[-a] (X Y | X)", "[-e] (X Y) | X", "[OPTIONS] X...", "[-a] [-o] X [Y]"},
+			[]profile{{"raw K<=2 L<=2, env subsets", map[string]interface{}{"profile": "raw", "K": 2, "L": 2, "envmask": 15}}}, 1)...)
+	}, Bounds: precBounds, Assumptions: precAssume,
 		Outside: []string{"custom types (C19 checks SetByUser for them too)"}})
 	val := groups["values"]
 	reg(&propDef{
@@ -456,7 +471,7 @@ func init() {
 							profs = []profile{{"tmpl K<=3 Lp<=1", map[string]interface{}{"profile": "tmpl", "K": 3, "Lp": 1}}, {"raw K<=2 L<=3", map[string]interface{}{"profile": "raw", "K": 2, "L": 3}}}
 						}
 						for _, pr := range profs {
-							ps := map[string]interface{}{"nopt": nopt, "narg": narg, "swap": swap, "env": 0}
+							ps := map[string]interface{}{"nopt": nopt, "narg": narg, "swap": swap, "env": 0, "argsFirst": 0}
 							for k, v := range pr.params {
 								ps[k] = v
 							}
@@ -466,7 +481,14 @@ func init() {
 						}
 						if narg > 0 && (swap == 0 || !c.quick()) {
 							// the same with every option and argument backed by an environment variable (symbolic subset set)
-							ps := map[string]interface{}{"nopt": nopt, "narg": narg, "swap": swap, "env": 1, "profile": "raw", "K": 2, "L": 1}
+							if nopt > 0 {
+								// arguments declared before the options
+								psf := map[string]interface{}{"nopt": nopt, "narg": narg, "swap": swap, "env": 0, "argsFirst": 1, "profile": "raw", "K": 2, "L": 2}
+								uf := unit(cli, "H_defspec", fmt.Sprintf("H_defspec[%d opts %d args v%d arguments declared first, raw K<=2 L<=2]", nopt, narg, swap), psf)
+								uf.Samples = 2
+								us = append(us, uf)
+							}
+							ps := map[string]interface{}{"nopt": nopt, "narg": narg, "swap": swap, "env": 1, "argsFirst": 0, "profile": "raw", "K": 2, "L": 1}
 							u := unit(cli, "H_defspec", fmt.Sprintf("H_defspec[%d opts %d args v%d env subsets, raw K<=2 L<=1]", nopt, narg, swap), ps)
 							u.Samples = 2
 							us = append(us, u)
@@ -494,7 +516,7 @@ func init() {
 	reg(&propDef{
 		ID: "C17", Level: "model_checking",
 		Units: func(c *checkCtx) []*interp.Unit {
-			cfgs := [][]int{{0, 0, 0, 0, 0}, {1, 1, 1, 0, 0}, {2, 2, 2, 0, 1}, {1, 3, 0, 1, 3}, {0, 1, 3, 0, 2}, {2, 0, 1, 1, 0}}
+			cfgs := [][]int{{0, 0, 0, 0, 0}, {1, 1, 1, 0, 0}, {2, 2, 2, 0, 1}, {1, 3, 0, 1, 3}, {0, 1, 3, 0, 2}, {3, 0, 1, 1, 0}}
 			if !c.quick() {
 				cfgs = append(cfgs, []int{2, 3, 3, 0, 0}, []int{2, 3, 3, 1, 1}, []int{1, 2, 3, 1, 2}, []int{2, 3, 2, 0, 3}, []int{0, 3, 1, 1, 0}, []int{1, 1, 2, 0, 2})
 			}
@@ -553,9 +575,15 @@ func init() {
 							continue // no IsBoolFlag method: nothing to answer
 						}
 						u := unit(cli, "H_custom", fmt.Sprintf("H_custom[combo %03b %s IsBoolFlag()=%v Lp<=%d env<=%d]", combo, map[int]string{1: "opt", 0: "arg"}[opt], fa == 1, lp, el),
-							map[string]interface{}{"combo": combo, "opt": opt, "Lp": lp, "envLen": el, "flagAnswer": fa})
+							map[string]interface{}{"combo": combo, "opt": opt, "Lp": lp, "envLen": el, "flagAnswer": fa, "withArg": 0})
 						u.Samples = 3
 						us = append(us, u)
+						if opt == 1 && fa == 1 && (combo == 0 || combo == 2) {
+							u2 := unit(cli, "H_custom", fmt.Sprintf("H_custom[combo %03b opt + positional Lp<=%d]", combo, lp),
+								map[string]interface{}{"combo": combo, "opt": opt, "Lp": lp, "envLen": 1, "flagAnswer": fa, "withArg": 1})
+							u2.Samples = 2
+							us = append(us, u2)
+						}
 					}
 				}
 			}
@@ -583,6 +611,7 @@ func init() {
 				us = append(us, unit(cli, "H_indep", fmt.Sprintf("H_indep[footprint spec %d raw K<=2 L<=2]", a), ps("footprint", 2, 2)))
 				us = append(us, unit(cli, "H_indep", fmt.Sprintf("H_indep[determinism spec %d raw K<=2 L<=2]", a), ps("determinism", 2, 2)))
 				us = append(us, unit(cli, "H_indep", fmt.Sprintf("H_indep[interfere spec %d/%d raw K<=1 L<=2]", a, (a+1)%n), ps("interfere", 1, 2)))
+				us = append(us, unit(cli, "H_indep", fmt.Sprintf("H_indep[envtime spec %d raw K<=1 L<=2]", a), ps("envtime", 1, 2)))
 			}
 			for _, u := range us {
 				u.Samples = 2
